@@ -542,18 +542,32 @@ func execC17(spec *RunSpec) *Result {
 							want = append(want, fmt.Sprintf("%d=%v/%v", idx, v, v))
 						}
 					case map[string]any:
-						var ks []string
-						for k := range c {
-							ks = append(ks, k)
+						// the order in which a map's entries are visited is not claimed: the visit indices must be
+						// 0..n-1, each once, and the values those of the map - not which value gets which index
+						var idxs, vals []string
+						for _, g := range got {
+							idxs = append(idxs, g[:strings.Index(g, "=")])
+							vals = append(vals, g[strings.Index(g, "=")+1:])
 						}
-						sort.Strings(ks)
-						for idx, k := range ks {
-							want = append(want, fmt.Sprintf("%d=%v/%v", idx, c[k], c[k]))
+						sort.Strings(idxs)
+						sort.Strings(vals)
+						got = append(idxs, vals...)
+						var wi, wv []string
+						n := 0
+						for _, v := range c {
+							wi = append(wi, strconv.Itoa(n))
+							wv = append(wv, fmt.Sprintf("%v/%v", v, v))
+							n++
 						}
+						sort.Strings(wi)
+						sort.Strings(wv)
+						want = append(wi, wv...)
 					}
 				}
-				sort.Strings(got) // order of map iteration is not part of the claimed half
-				sort.Strings(want)
+				if _, isMap := mv.(map[string]any); !isMap || !mok {
+					sort.Strings(got)
+					sort.Strings(want)
+				}
 				if strings.Join(got, "|") != strings.Join(want, "|") {
 					fail(i, op, "foreach-mismatch", "ForEach visits other elements than the collection holds", "ForEach(%q) visited %v, model %v", op.Path, got, want)
 				}
@@ -572,27 +586,28 @@ func execC17(spec *RunSpec) *Result {
 					}
 					break
 				}
-				if mok != gok || (mok && gs != fmt.Sprint(mv)) {
+				// Settled by the statement: an absent path is reported absent; a string is that string. How other
+				// kinds are formatted, and which are convertible at all, is the implementation's choice.
+				ms, isStr := mv.(string)
+				if (!mok && gok) || (mok && isStr && (!gok || gs != ms)) {
 					fail(i, op, "getstring-mismatch", "GetString disagrees with the model", "GetString(%q) = (%q,%v), model (%v,%v)", op.Path, gs, gok, mv, mok)
 				}
 			case "getint":
 				mv, mok := ms.resolve(splitSimplePath(op.Path))
 				gi, gok := rs.GetInt(op.Path)
-				wi, wok := 0, false
-				if mok {
-					switch t := mv.(type) {
-					case int:
-						wi, wok = t, true
-					case float64:
-						wi, wok = int(t), true
-					case string:
-						if n, err := strconv.Atoi(t); err == nil {
-							wi, wok = n, true
-						}
+				// Settled by the statement: an absent path is reported absent; an integer is that integer. Which other
+				// kinds (numeric strings, booleans, floats with a fraction) convert is the implementation's choice.
+				wi, isInt := 0, false
+				switch t := mv.(type) {
+				case int:
+					wi, isInt = t, true
+				case float64:
+					if t == float64(int(t)) {
+						wi, isInt = int(t), true
 					}
 				}
-				if wok != gok || wi != gi {
-					fail(i, op, "getint-mismatch", "GetInt disagrees with the model", "GetInt(%q) = (%d,%v), model (%d,%v)", op.Path, gi, gok, wi, wok)
+				if (!mok && gok) || (mok && isInt && (!gok || gi != wi)) {
+					fail(i, op, "getint-mismatch", "GetInt disagrees with the model", "GetInt(%q) = (%d,%v), model (%v,%v)", op.Path, gi, gok, mv, mok)
 				}
 			case "touchold":
 				for _, pm := range pushedMaps {
